@@ -611,7 +611,7 @@ def _retry_name(r):
 class World(object):
     """one history.  Use as a context manager; everything is restored / joined on exit."""
 
-    def __init__(self, seed=0, flavour="udp", mtu=1500, t0=1000.0, token_pool=None, root_key_int=None, configure=None):
+    def __init__(self, seed=0, flavour="udp", mtu=1500, t0=1000.0, token_pool=None, root_key_int=None, configure=None, configure_late=False):
         self.seed = seed
         self.flavour = flavour
         self.mtu = mtu
@@ -640,6 +640,7 @@ class World(object):
         self.server_bytes_out = {}   # addr -> bytes sent to
         self.server_emit_hooks = []
         self._configure = configure
+        self._configure_late = configure_late     # True: settings are made after the server object exists, before it starts
         self._root_key_int = root_key_int
         self.ctxt = None
         self.thread = None
@@ -655,7 +656,7 @@ class World(object):
             self.handler = RecordingHandler(self)
             root = derive_key(self._root_key_int) if self._root_key_int is not None else None
             self.ctxt = ServerContext(self.handler, root)
-            if self._configure:
+            if self._configure and not self._configure_late:
                 self._configure(self.ctxt)
             if self.flavour == "twisted":
                 from mpgameserver.twisted import TwistedServer
@@ -685,6 +686,8 @@ class World(object):
             self.thread.lk_queue = threading.RLock()
             self.thread.cv_queue = _StepCondition(self.thread.lk_queue, self)
             self.thread.daemon = True
+            if self._configure and self._configure_late:
+                self._configure(self.ctxt)
             self.thread.start()
             self._wait_signal()
         except BaseException:
